@@ -24,19 +24,21 @@ theorem C08_ids_unique (ops : List Op) (k : Kind) (a b : Bool) :
 theorem C08_registries_consistent (ops : List Op) : Inv (run init ops).1 :=
   inv_run init inv_init ops
 
-/-- For ANY interleaving of outstanding requests and replies: when the reply to an application request
+/-- For ANY interleaving of outstanding requests, replies and requests of the server's own (`hsrv`: handled the way the current source
+    handles them — `C08_source_takes_only_answers_for_answers`): when the reply to an application request
     (of any supported kind) arrives, the owning layer's callback runs once and then the application's
     callback of the matching type runs once, with that request; afterwards nobody knows the id. -/
 theorem C08_reply_reaches_callback_once (pre post : List Op) (k : Kind) (hk : k ∈ Yow.Gen.iqKinds) (a b r : Bool)
     (hpost : ∀ op ∈ post, ∀ r', op ≠ .deliver ((run init pre).1.next + 1) r')
-    (hre : ∀ op ∈ post, ∀ k' a' b', op ≠ .reReq ((run init pre).1.next + 1) k' a' b') :
+    (hre : ∀ op ∈ post, ∀ k' a' b', op ≠ .reReq ((run init pre).1.next + 1) k' a' b')
+    (hsrv : ∀ op ∈ post, ∀ i, op ≠ .serverReq i true) :
     let id := (run init pre).1.next + 1
     let s := (run (step (run init pre).1 (.appReq k a b)).1 post).1
     (step s (.deliver id r)).2 =
       [.layerCb k.owner id r, if (if r then a else b) then .appCb id r else .swallowed id] ∧
     (∀ e ∈ (step s (.deliver id r)).1.layerReg, e.id ≠ id) ∧
     (∀ e ∈ (step s (.deliver id r)).1.appReg, e.id ≠ id) :=
-  app_request_reply pre post k (C08_all_kinds_complete k hk) a b r hpost hre
+  app_request_reply pre post k (C08_all_kinds_complete k hk) a b r hpost hre hsrv
 
 /-- Replies with unknown ids and replayed replies invoke no callback and are handled as ordinary stanzas. -/
 theorem C08_unknown_or_replayed_calls_nothing (s : St) (id : Nat) (r r' : Bool) :
@@ -49,11 +51,12 @@ theorem C08_unknown_or_replayed_calls_nothing (s : St) (id : Nat) (r r' : Bool) 
     reaches the application. -/
 theorem C08_library_request_reply (pre post : List Op) (k : Kind) (hk : k ∈ Yow.Gen.iqKinds) (r : Bool)
     (hpost : ∀ op ∈ post, ∀ r', op ≠ .deliver ((run init pre).1.next + 1) r')
-    (hre : ∀ op ∈ post, ∀ k' a' b', op ≠ .reReq ((run init pre).1.next + 1) k' a' b') :
+    (hre : ∀ op ∈ post, ∀ k' a' b', op ≠ .reReq ((run init pre).1.next + 1) k' a' b')
+    (hsrv : ∀ op ∈ post, ∀ i, op ≠ .serverReq i true) :
     let id := (run init pre).1.next + 1
     let s := (run (step (run init pre).1 (.libReq k)).1 post).1
     (step s (.deliver id r)).2 = [.layerCb k.owner id r, .appEntity id] :=
-  lib_request_reply pre post k (C08_all_kinds_complete k hk) r hpost hre
+  lib_request_reply pre post k (C08_all_kinds_complete k hk) r hpost hre hsrv
 
 /-- A retry under the old id — re-issued after, or from inside the callback of, its reply (the registry entry
     is removed BEFORE the callback is dispatched) — is registered again and answered like the first time. -/
@@ -64,6 +67,24 @@ theorem C08_retry_from_callback (ops : List Op) (id : Nat) (hid : id ≤ (run in
     (step (step (run init ops).1 (.reReq id k a b)).1 (.deliver id r)).2 =
       [.layerCb k.owner id r, if (if r then a else b) then .appCb id r else .swallowed id] :=
   retry_same_id_reply _ (inv_run init inv_init ops) id hid hl ha k (C08_all_kinds_complete k hk) a b r
+
+/-- Regenerated obligation: the current source does not take a request of the server's own for the answer to a pending request with the
+    same id (probed: a request is left pending, the server's ping arrives under its id, then the genuine result). -/
+theorem C08_source_takes_only_answers_for_answers : Yow.Gen.serverRequestConsumes = false := by decide
+
+/-- The server's own requests — however many, under whatever ids, those of outstanding requests included — change nothing: they are answered,
+    and every reply still reaches its callback exactly as without them (`C08_reply_reaches_callback_once` and `C08_library_request_reply`
+    allow such requests anywhere in `pre` and `post`). -/
+theorem C08_server_request_is_answered_and_changes_nothing (s : St) (id : Nat) :
+    step s (.serverReq id false) = (s, [.pong id]) :=
+  step_serverReq_false s id
+
+/-- Sensitivity (the code before fix 0225534): treated as an answer, the server's ping under the id of a pending request removes the request:
+    no pong, and the genuine result that arrives later calls nothing. -/
+theorem C08_server_request_taken_for_an_answer_loses_the_reply :
+    (run init [.appReq ⟨16, true, true, true⟩ true true, .serverReq 1 true, .deliver 1 true]).2 = [.sent 1, .swallowed 1, .ordinary 1] ∧
+    (run init [.appReq ⟨16, true, true, true⟩ true true, .serverReq 1 false, .deliver 1 true]).2 = [.sent 1, .pong 1, .layerCb 16 1 true, .appCb 1 true] := by
+  decide
 
 /-- Why both callbacks must be registered (the pinned tree's defect as a model witness): with a kind
     that registers no error callback, an error reply to an application request is swallowed. -/
